@@ -154,7 +154,8 @@ def main():
     ck.rule = ("structured boundary set (budgets x lengths around multiples of the per-chunk payload x addresses "
                "near 0 / 2^32 / 2^63 / 2^64) + seeded random cases, each run on the real ReadMem/WriteMem::chunks "
                "and on the Gallina model (vm_compute), plus the property predicate evaluated by the harness on the "
-               "exhaustive grid lengths 0..4096 x budgets 0..600 (read and write); non-trivial = Ok result with >= 2 "
+               "exhaustive grid lengths 0..4096 x budgets 0..600 and on windows of larger budgets (around 1024, 2048, 4096; "
+               "thorough: 601..1100, 1500, 8192, 16384 too) x lengths up to two full chunks (read and write); non-trivial = Ok result with >= 2 "
                "chunks, distinct by case line")
     ck.prove()
     ck.phase("prove")
@@ -192,6 +193,16 @@ def main():
             hi = min(nhi, lo + step - 1)
             for a in ([0] if ck.tier == "quick" else [0, (1 << 64) - 4096 - 1]):
                 grid.append(Case("c10grid", [kind, lo, hi, 0, 600, a], (kind, lo, hi, a)))
+    # budgets beyond the first grid, in windows around the powers of two a transport may treat specially
+    # (packet sizes 512 / 1024, 2048, 4096, 8192) and lengths up to two full chunks of the largest of them
+    windows = [(1000, 1100), (2030, 2080), (4090, 4130)] if ck.tier == "quick" else \
+        [(601, 1100), (1490, 1560), (2030, 2080), (4090, 4130), (8180, 8230), (16380, 16420)]
+    for kind in ("r", "w"):
+        for blo, bhi in windows:
+            nmax = min(2 * bhi + 100, 40000)
+            stp = 512
+            for lo in range(0, nmax + 1, stp):
+                grid.append(Case("c10grid", [kind, lo, min(nmax, lo + stp - 1), blo, bhi, 0], (kind, lo, min(nmax, lo + stp - 1), 0)))
     gout = ck.run_impl(binary, [g.line for g in grid], jobs=16)
     total = 0
     for g, o in zip(grid, gout):
